@@ -21,10 +21,52 @@ def all_codes():
     return out
 
 
-def info_of(code):
-    from dateparser.languages.loader import LocaleDataLoader
+def _overlay(base, extra):
+    """spec of the regional overlay: lists are extended, dicts merged recursively, scalars replaced"""
+    out = dict(base)
+    for k, v in extra.items():
+        if k in out and isinstance(out[k], list) and isinstance(v, list):
+            out[k] = out[k] + v
+        elif k in out and isinstance(out[k], dict) and isinstance(v, dict):
+            out[k] = _overlay(out[k], v)
+        else:
+            out[k] = v
+    return out
 
-    return LocaleDataLoader().get_locale(code).info
+
+_fresh = {}
+
+
+def _fresh_language_data(lang):
+    """the data module executed from its file into a private namespace (never the imported module
+    object, which the library may have modified in this process)"""
+    if lang not in _fresh:
+        import os
+
+        import dateparser
+
+        path = os.path.join(os.path.dirname(dateparser.__file__), "data", "date_translation_data",
+                            lang + ".py")
+        ns = {}
+        with open(path, encoding="utf-8") as f:
+            exec(compile(f.read(), path, "exec"), ns)
+        _fresh[lang] = ns["info"]
+    return _fresh[lang]
+
+
+def info_of(code):
+    """the vocabulary the data modules DEFINE for a language or locale, computed here from the data
+    (a fresh deep copy), independently of the library's loader and of whatever was loaded before"""
+    import copy
+    import re
+    from importlib import import_module
+
+    lang = re.split(r"-(?=[A-Z0-9]+$)", code)[0]
+    info = copy.deepcopy(_fresh_language_data(lang))
+    specific = info.pop("locale_specific", {})
+    if code != lang:
+        info = _overlay(info, specific.get(code, {}))
+    return info
 
 
 def meanings(info):
